@@ -88,6 +88,8 @@ fn ide_worker(args: &[String]) -> i32 {
         if t0.elapsed().as_secs_f64() > budget_s {
             break;
         }
+        // should this process die inside the run (abort, stack overflow), the driver learns which
+        let _ = std::fs::write(format!("{out}/worker-{worker}.current"), run.to_string());
         let plan = ide_sim::gen_plan(&prop, seed, run, thorough);
         let o = ide_sim::run_plan(&plan, false);
         agg.runs += 1;
@@ -326,6 +328,7 @@ fn lsp_worker(args: &[String]) -> i32 {
         if t0.elapsed().as_secs_f64() > budget_s {
             break;
         }
+        let _ = std::fs::write(format!("{out}/worker-{worker}.current"), run.to_string());
         let s = lsp_gen(&prop, seed, run, thorough);
         let h = lsp::run_session(&s, false);
         let ev = lsp_eval(&s, &h);
@@ -405,6 +408,17 @@ fn lsp_worker(args: &[String]) -> i32 {
     if poisoned {
         std::process::exit(0);
     }
+    0
+}
+
+fn ide_plan(args: &[String]) -> i32 {
+    let prop = arg(args, "--prop").expect("--prop");
+    let seed: u64 = arg(args, "--seed").and_then(|s| s.parse().ok()).unwrap_or(1);
+    let run: u64 = arg(args, "--run").and_then(|s| s.parse().ok()).unwrap_or(0);
+    let thorough = arg(args, "--tier").as_deref() == Some("thorough");
+    let plan = ide_sim::gen_plan(&prop, seed, run, thorough);
+    let out = arg(args, "--write").expect("--write");
+    std::fs::write(out, serde_json::to_string_pretty(&plan.to_json()).unwrap()).unwrap();
     0
 }
 
@@ -573,6 +587,21 @@ fn lsp_shrink(args: &[String]) -> i32 {
                     }
                 }
             }
+            if !best.midload.is_empty() {
+                for k in (0..best.midload.len()).rev() {
+                    let mut cand = best.clone();
+                    cand.midload.remove(k);
+                    if cand.midload.is_empty() {
+                        // the loader's points stop being decision points: recorded decisions are stale
+                        cand.decisions = None;
+                    }
+                    if let Some(d) = fails(&cand, &mut tries, &mut poisoned) {
+                        cand.decisions = Some(d);
+                        best = cand;
+                        progress = true;
+                    }
+                }
+            }
             if best.gran != core::Granularity::Coarse {
                 let mut cand = best.clone();
                 cand.gran = core::Granularity::Coarse;
@@ -693,6 +722,7 @@ fn main() {
         Some("ide-replay") => ide_replay(&args[1..]),
         Some("ide-shrink") => ide_shrink(&args[1..]),
         Some("ide-log") => ide_log(&args[1..]),
+        Some("ide-plan") => ide_plan(&args[1..]),
         Some("lsp-worker") => lsp_worker(&args[1..]),
         Some("lsp-replay") => lsp_replay(&args[1..]),
         Some("lsp-plan") => lsp_plan(&args[1..]),
